@@ -481,3 +481,22 @@ ob("ep_invariant_lemma", "chess::verif_chess::inst::ep_invariant_lemma", ["C02",
 ob("get_moves_frame", "chess::verif_chess::inst::get_moves_frame", ["C03", "C01"],
    "WHOLE Game::get_moves vs abstract callees (generator emits nothing, any is_targeted answers, both modes): every field of the game unchanged, list empty -- covers the statements between the sliced regions",
    ["Game::get_moves (whole function, abstract callees)"], timeout=900)
+
+
+# which verbatim slices an obligation exercises (copied into the evidence with line ranges and text hashes)
+OB_SLICES = {
+    "fen_step_contract": ["verif_fen_step"], "fen_tail_contract": ["verif_fen_tail"], "fen_board_end_contract": ["verif_fen_board_end"],
+    "fen_side_": ["verif_fen_side"], "fen_castling_": ["verif_fen_castling"], "fen_ep_": ["verif_fen_ep"],
+    "fen_rank_": ["verif_fen_rank"], "fen_fields_": ["verif_fen_fields"], "pgn_step_contract": ["verif_pgn_step"],
+    "gen_body": ["verif_gen_body"], "gen_block": ["verif_gen_block"], "filter_body": ["verif_filter_body"], "filter_block": ["verif_filter_block"],
+    "get_moves_prologue": ["verif_get_moves_prologue"], "c13_budget_": ["verif_budget"], "position_step_contract": ["verif_position_step"],
+    "autoplay_tail_respects_stack_capacity": ["verif_autoplay_tail"],
+}
+
+
+def slices_of(obligation_name):
+    out = []
+    for k, v in OB_SLICES.items():
+        if obligation_name == k or (k.endswith("_") and obligation_name.startswith(k)):
+            out += v
+    return out
